@@ -266,6 +266,14 @@ def make_models(variant):
         return (inertial_sensor.EstimationModel(bias_sd=[1e-4, 0, 2e-4], noise=[1e-5, 1e-5, 0],
                                                 bias_walk=[1e-6, 0, 0]),
                 inertial_sensor.EstimationModel(bias_sd=0.02, bias_walk=[0, 1e-4, 0]))
+    if variant == 'gyro_only':
+        # only one of the two models is passed; the other one is the documented default
+        return inertial_sensor.EstimationModel(bias_sd=1e-4, noise=1e-5), None
+    if variant == 'accel_only':
+        return None, inertial_sensor.EstimationModel(bias_sd=[0.02, 0, 0.02], noise=1e-3)
+    if variant == 'stateless':
+        # models that carry noise only: no states at all
+        return inertial_sensor.EstimationModel(noise=1e-5), inertial_sensor.EstimationModel(noise=[1e-3, 0, 1e-3])
     if variant == 'sm':
         return (inertial_sensor.EstimationModel(bias_sd=1e-4, noise=1e-5,
                                                 scale_misal_sd=[[1e-3, 0, 1e-3], [0, 0, 0],
@@ -295,7 +303,9 @@ def run_filter(kind, case):
     form = case.get('form', 'list')
     kwargs = dict(time_step=step, with_altitude=wa)
     if gm is not None:
-        kwargs.update(gyro_model=gm, accel_model=am)
+        kwargs.update(gyro_model=gm)
+    if am is not None:
+        kwargs.update(accel_model=am)
     if form == 'list':
         kwargs['measurements'] = meas
     elif form == 'empty':
